@@ -1294,6 +1294,11 @@ void UniCompiler::emit_3i(UniOpRRR op, const Gp& dst, const Operand_& src1_, con
         ASMJIT_ASSERT(dst.size() == b.size());
 
         InstId inst_id = legacy_logical_inst_table[size_t(op) - size_t(UniOpRRR::kAnd)];
+        if (dst_is_b && !dst_is_a) {
+          // Commutative - `dst = a op dst`.
+          cc->emit(inst_id, dst, a);
+          return;
+        }
         if (!dst_is_a)
           cc->mov(dst, a);
         cc->emit(inst_id, dst, b);
